@@ -1,6 +1,6 @@
 #!/bin/bash
 # usage: scripts/run_all.sh quick|thorough  — runs every registered check, prints one line each
-cd /verif
+cd "$(dirname "$0")/.."
 tier=${1:-quick}
 for p in $(python3 -c "import json;print(' '.join(c['property_id'] for c in json.load(open('MANIFEST.json'))['checks']))"); do
   s=$(date +%s)
